@@ -17,6 +17,8 @@ mod profile;
 mod resources;
 mod semantic;
 mod test_lib;
+#[cfg(feature = "verif")]
+mod verif_send_sync;
 mod vfs;
 
 pub use compilation::*;
